@@ -193,6 +193,22 @@ def install(I):
     chain_cls.ns["from_iterable"] = StaticMethodV(Builtin("chain.from_iterable", _chain_from_iterable))
     E["itertools.chain"] = chain_cls
     E["atexit.register"] = Builtin("atexit.register", lambda i, a, k: i.st.event("atexit", a[0]))
+    def _shallow_copy(i, a, k):
+        x = a[0]
+        if isinstance(x, Obj):
+            f, owner = x.cls.lookup("__copy__")
+            if f is not None:
+                return i.call(i.bind(f, x), [], {})
+            return Obj(x.cls, dict(x.fields), tag=x.tag)
+        if isinstance(x, ListV):
+            return ListV(x.items)
+        if isinstance(x, DictV):
+            return DictV(list(zip(x.keys, x.vals)))
+        if isinstance(x, SetV):
+            return SetV(list(x.items), x.frozen)
+        return x
+    E["copy.copy"] = Builtin("copy.copy", _shallow_copy, "copy.copy: new object of the same class with the same attribute bindings")
+    E["shutil.which"] = Builtin("shutil.which", lambda i, a, k: i.st.ghost["which"](i, a[0]) if "which" in i.st.ghost else (_ for _ in ()).throw(Unsupported("shutil.which")))
     E["copy.deepcopy"] = Builtin("deepcopy", lambda i, a, k: (_ for _ in ()).throw(Unsupported("deepcopy")))
     E["collections.abc.MutableMapping"] = obj
     E["typing.TypeVar"] = Builtin("TypeVar", lambda i, a, k: Opaque("TypeVar", (a[0],)))
